@@ -146,6 +146,7 @@ def check_program(tag, group, style):
         s.stop()
         ws.drop()
     out["files"] = model.text
+    out["relpath"] = model.relpath
     out["main"] = model.prog["main"]
     return out
 
@@ -178,11 +179,12 @@ def run(tier):
             payload["files"] = res["files"]
             chk.violation(key, what, payload)
         chk.cov["evaluations"] += res["renames"]
-        orig = {"main": B + res["main"] + ".oal", "files": {B + m + ".oal": t for m, t in res["files"].items()}, "want": {"doc": True}}
+        rel = res["relpath"]
+        orig = {"main": B + rel[res["main"]], "files": {B + rel[m]: t for m, t in res["files"].items()}, "want": {"doc": True}}
         comp_cases.append(orig)
         comp_meta.append(("orig", res, None))
         for info, newtexts in res["compile_cases"]:
-            comp_cases.append({"main": B + res["main"] + ".oal", "files": {B + m + ".oal": t for m, t in newtexts.items()}, "want": {"doc": True}})
+            comp_cases.append({"main": B + rel[res["main"]], "files": {B + rel[m]: t for m, t in newtexts.items()}, "want": {"doc": True}})
             comp_meta.append(("new", res, info))
     obs = common.run_oalv_parallel("compile", comp_cases, jobs=8)
     cur = None
